@@ -1425,11 +1425,17 @@ func c14TimerGateCase(c *mon.Case, state bool) {
 	w := newRtWorld(c, state, false, true, behave)
 	cx := &rtCtxs{}
 	defer cx.cancelAll()
-	var obj any = w.rc
+	var g *mon.Gate
 	if w.src != nil {
-		obj = nil
+		ptr := mon.FieldPtr(w.src, "rc")
+		if ptr == 0 {
+			c.Inconclusive("cannot locate the inner RoutineContainer")
+			return
+		}
+		g = mon.NewGatePtr(verifhook.RoutineTimer, ptr, 1)
+	} else {
+		g = mon.NewGate(verifhook.RoutineTimer, w.rc, 1)
 	}
-	g := mon.NewGate(verifhook.RoutineTimer, obj, 1)
 	ctx, tag := cx.fresh()
 	w.setContext("d", ctx, false, fmt.Sprint("new#", tag))
 	w.setGen("d", 1)
